@@ -905,13 +905,17 @@ namespace c04
         reg_value_or<int, masks<int>::msel>::go();
         reg_value_or<double, masks<double>::msel>::go();
 #elif C04_PART == 21
-        reg_alias<WOpt, int>();
         reg_alias<WOpt, double>();
         reg_alias<WOpt, TI>();
+#if C04_FLAGS >= 2   // thorough: also on builtin int (forked trap oracle); quick relies on Traced<int> for the integer semantics
+        reg_alias<WOpt, int>();
+#endif
 #elif C04_PART == 22
-        reg_alias<WMsk, int>();
         reg_alias<WMsk, double>();
         reg_alias<WMsk, TI>();
+#if C04_FLAGS >= 2
+        reg_alias<WMsk, int>();
+#endif
 #elif C04_PART == 18
         reg_eqops<WMsk, TI, TI, masks<TI>::m2>();
         reg_unops<WMsk, TI, masks<TI>::m2>();
